@@ -43,7 +43,7 @@ def run(tier: str, seed: int, replay=None) -> int:
                     ("SNLifeMC_ref_quick", False, 0, "ref")] if q else
                    [("SNLifeMC_struct_thorough", True, 0, "struct"), ("SNLifeMC_reuse_thorough", True, 0, "reuse"),
                     ("SNLifeMC_multi_thorough", True, 4000, "multi"), ("SNLifeMC_life_thorough", True, 0, "life"),
-                    ("SNLifeMC_names_thorough", True, 6000, "names"), ("SNLifeMC_names_prefixdot", False, 0, "names-prefixdot"),
+                    ("SNLifeMC_names_thorough", True, 4000, "names"), ("SNLifeMC_names_prefixdot", False, 0, "names-prefixdot"),
                     ("SNLifeMC_ref_thorough", False, 0, "ref")]),
         "sanity": ["SNLifeMC_pinned_cost", "SNLifeMC_names_prefix", "SNLifeMC_names_sn", "SNLifeMC_names_leafset"],
         "n_random": 120 if q else 3000,
